@@ -64,7 +64,7 @@ def cases(draw, allow_unweighted_reductions=True):
     extra = [value_lists(draw, n, "free") for _ in range(n_extra)]
     return dict(layout=lay, points=pts, data=data, weights=weights, reduction=red, center=draw(st.booleans()),
                 drop=draw(st.booleans()), extra=extra, shape=draw(st.sampled_from(blocks.shape_options(n))),
-                weights_1d=draw(st.booleans()), orders=draw(vbuild.orders_strategy()))
+                weights_1d=draw(st.booleans()), orders=draw(vbuild.orders_strategy()), container=draw(st.sampled_from(vbuild.CONTAINERS)))
 
 
 def build(case):
@@ -99,7 +99,11 @@ def check(case, ctx):
     reducer = vd.BlockReduce(red, center_coordinates=case["center"], drop_coords=case["drop"], **kw)
     d_arg = data[0] if len(data) == 1 else data
     w_arg = None if weights is None else (weights[0] if len(weights) == 1 else weights)
-    out = reducer.filter(coords, d_arg, w_arg) if weights is not None else reducer.filter(coords, d_arg)
+    P = lambda a: vbuild.present(a, case.get("container"))  # noqa: E731
+    pc = tuple(P(c) for c in coords)
+    pd_arg = P(d_arg) if not isinstance(d_arg, tuple) else tuple(P(x) for x in d_arg)
+    pw_arg = None if w_arg is None else (P(w_arg) if not isinstance(w_arg, tuple) else tuple(P(x) for x in w_arg))
+    out = reducer.filter(pc, pd_arg, pw_arg) if weights is not None else reducer.filter(pc, pd_arg)
     ctx.check(isinstance(out, tuple) and len(out) == 2, "filter must return (coordinates, data)")
     out_coords, out_data = out
     if len(data) == 1:
